@@ -176,7 +176,16 @@ def check(ctx, case):
         vs, mv, sc = case["vs"], case["mv"], case["sc"]
         S = I.Primitive.polygon([(p[0], p[1]) for p in vs])
         r0 = I.ROUNDINGS[0]
+        def moments_exact(where, cur):
+            # every moment asked of the SAME object at every stage must be the exact rational for where it is now
+            for ex, ey in ((0, 0), (1, 0), (0, 1), (2, 0), (1, 2)):
+                ar = I.IntegrateShape.polynomial(S, ex, ey)
+                if not _wf(ar) or F(ar) != O.moment_jordan(G.verts_to_jordan(cur), ex, ey):
+                    fails.append(Fail(kind="O", what="moment x^%d y^%d %s is not the exact rational of the current coordinates" % (ex, ey, where), impl=repr(ar)))
+                    return
+        moments_exact("before any transformation", [(p[0], p[1]) for p in vs])
         S.move(mv[0], mv[1])
+        moments_exact("after move() of an object already integrated", [(p[0] + mv[0], p[1] + mv[1]) for p in vs])
         S.scale(sc[0], sc[1])
         got = [(p[0], p[1]) for p in S.jordans[0].vertices]
         want = [((p[0] + mv[0]) * sc[0], (p[1] + mv[1]) * sc[1]) for p in vs]
